@@ -69,7 +69,7 @@ func H_C06_RouterInfo() {
 	}
 	sk := i2ped.Ed25519PrivateKey(priv)
 	ms := nd.Int64()
-	nd.Assume(ms >= 0 && ms < 1<<62)
+	nd.Assume(ms >= 0)
 	ri, rerr := router_info.NewRouterInfo(ident, time.UnixMilli(ms), addrs, smallOptions(), &sk, 7)
 	nd.Assert(rerr == nil && ri != nil, "ri/constructed")
 	if rerr != nil || ri == nil {
